@@ -5,6 +5,7 @@ real code of the refinement operations, the grid, the integrator and the cell li
 coordinates (path feasibility by z3); each report is replayed natively under valgrind memcheck, which is used
 only as replay oracle.  Not a whole-program claim: only the listed harnesses / paths are covered."""
 import os
+from fractions import Fraction
 import random
 import re
 import subprocess
@@ -61,7 +62,7 @@ def main(chk):
     names = ['T4', 'T5'] if quick else ['T4', 'T5', 'T6', 'T6b']
     chk.bounds = {'solver scenarios': 'h_sim: real solver constructor, run_iteration (1-2 iterations, I/O stubbed) and destructor on two-cell tissues with concrete geometry', 'harness': 'h_refine: real constructor + initialize_cell_properties, then one of ' + ', '.join(OPS.values()), 'meshes': names,
                   'edges': 'every edge for split/merge/swap; vectors are at capacity (size == capacity) so the first add_node/add_face reallocates',
-                  'outside': 'thread schedules, file parsing, ball pivoting / hole filling, sprintf, any path no harness explores'}
+                  'formatting': 'both sprintf sites with symbolic numbers (format_number with the four formats used in the repository, hh:mm:ss of the statistics writers)', 'outside': 'thread schedules, file parsing, ball pivoting / hole filling, any path no harness explores'}
     sess = api.Session(ir, mode='real')
     z = SV.Z3Ctx()
     reports = {}      # (kind, site) -> example
@@ -142,6 +143,7 @@ def main(chk):
             chk.ob('unconfirmed report %s/%s' % (kind, site), 'unknown', False, 0, detail=rep)
     sim_scenarios(chk, reports_seen=set(k for k in reports))
     reader_scenarios(chk)
+    format_scenarios(chk)
     chk.finish(level='other', explanation=(
         'Memory monitors of the symbolic interpreter on %d explored paths of the refinement/compaction harness (symbolic coordinates, path feasibility by z3). '
         'A path with a report is a violation only if valgrind memcheck confirms an error of the same class on the native g++ build at the solver model.' % npaths))
@@ -173,6 +175,60 @@ def reader_scenarios(chk):
             else:
                 chk.note('memory report %s in %s not confirmed by valgrind: recorded, not reported as violation' % (rep['kind'], site))
                 chk.ob('unconfirmed report %s/%s' % (rep['kind'], site), 'unknown', False, 0, detail=vg)
+
+NOW = '_ZNSt6chrono3_V212system_clock3nowEv'
+def format_scenarios(chk):
+    """(e) fixed-size formatting buffers: the two sprintf sites of the repository (format_number in include/utils.hpp with the formats the repository
+    passes, and the hh:mm:ss string of the statistics writers) run in irsym with the formatted numbers symbolic; the sprintf model asks the solver
+    whether the text plus its terminator can exceed the room left in the destination object. A report is replayed on an AddressSanitizer build."""
+    ir = build.build_ir(['h_str.cpp'])
+    nat = build.build_native(['h_str.cpp'])
+    chk.assumptions += ['(e) the wall clock does not run backwards (elapsed time >= 0) and is below 2^63 ns; doubles passed to format_number are arbitrary (any finite value, inf or nan)']
+    cases = [('string_statistics_writer::write_data, elapsed time arbitrary', 'h_c10_clock', lambda: ([], [0])),
+             ('format_number(double, "%.2e")', 'h_c10_format', lambda: ([S.var('fx')], [0, 0])),
+             ('format_number(double, "%.3e")', 'h_c10_format', lambda: ([S.var('fx')], [1, 0])),
+             ('format_number(double, "%.4e")', 'h_c10_format', lambda: ([S.var('fx')], [2, 0])),
+             ('format_number(unsigned, "%d")', 'h_c10_format', lambda: ([0.0], [3, S.ivar('fu', 32, 0, (1 << 32) - 1)]))]
+    def now(it, a):
+        return S.ivar('now_ns', 64, 0, (1 << 63) - 1)
+    sess = api.Session(ir, mode='real', overrides={NOW: now})
+    z = SV.Z3Ctx()
+    for (name, entry, mk) in cases:
+        din, iin = mk()
+        ctl, res = sess.explore(entry, din, iin, assumptions=[], zctx=z, max_paths=32, branch_timeout_ms=5000)
+        chk.paths += ctl.paths_done
+        tag = 'formatting buffer/' + name
+        done = [(tr, pc, r) for (tr, pc, r) in res if getattr(r, 'status', None) != 'pathend']
+        if not ctl.exhausted or not done:
+            chk.fail_closed.append(tag + ': exploration incomplete'); continue
+        bad = [(tr, pc, r) for (tr, pc, r) in done if r.status == 'memory']
+        other = [(tr, pc, r) for (tr, pc, r) in done if r.status not in ('ok', 'memory')]
+        for (tr, pc, r) in other:
+            chk.fail_closed.append(tag + ': path ended with %s %r' % (r.status, getattr(r, 'error', None)))
+        if not any(r.status == 'ok' for (_, _, r) in done): chk.fail_closed.append(tag + ': no completed path')
+        else: chk.witnesses += 1
+        if not bad:
+            chk.ob(tag + '/the text and its terminator fit into the buffer for every value', 'proved', True, 0)
+            continue
+        tr, pc, r = bad[0]
+        st, model = SV.satisfiable(z, list(pc), 10000)
+        chk.ob(tag + '/the text and its terminator fit into the buffer for every value', 'violated', True, 0, {'report': str(r.error)[:300]})
+        # replay on an AddressSanitizer build at the solver's value
+        asan = build.build_native(['h_str.cpp'], opt='-fsanitize=address')
+        m_ = model or {}
+        if entry == 'h_c10_clock':
+            ns = int(Fraction(m_.get('now_ns', 10 ** 18)))
+            rdin, riin = [], [ns // 10 ** 9]
+        else:
+            rdin = [float(Fraction(m_['fx'])) if 'fx' in m_ else -1.2345678e-100] if iin[0] != 3 else [0.0]
+            riin = [iin[0], int(Fraction(m_.get('fu', (1 << 32) - 1))) if iin[0] == 3 else 0]
+        rep = asan_replay(asan, entry, rdin, riin)
+        rep.update(irsym_report=str(r.error)[:400], din=rdin, iin=riin, how='harness %s (/verif/harness/h_str.cpp) on a g++ -fsanitize=address build' % entry)
+        if rep.get('ran') and 'invalid-access' in rep.get('kinds', []):
+            chk.violation('C10/formatting-buffer/%s' % name.split(',')[0], '%s: %s; AddressSanitizer at %r %r: %s' % (tag, str(r.error)[:200], rdin, riin, rep.get('first')), rep)
+        else:
+            chk.fail_closed.append(tag + ': irsym reports %s, AddressSanitizer does not confirm at %r %r (%r)' % (str(r.error)[:120], rdin, riin, rep.get('first')))
+    chk.functions |= sess.functions_called
 
 def asan_replay(binary, entry, din, iin):
     line = entry + ' %d %d' % (len(din), len(iin)) + ''.join(' ' + float(d).hex() for d in din) + ''.join(' %d' % i for i in iin) + '\n'
